@@ -40,4 +40,10 @@ pub open spec fn seg_post<Old: Index<usize> + ?Sized, New: Index<usize> + ?Sized
         && (d0.relies() ==> d1.rely_st() == run_rel(d0.rely_rel(), d0.rely_st(), s))
 }
 
+/// the running invariant of an algorithm body: the hook has received the segment `s` so far
+pub open spec fn alg_inv<D: DiffHook>(d: D, d0: D, t0: Seq<Ev>, s: Seq<Ev>, rel: Rel, rs0: St, o0: int, n0: int, oc: int, nc: int) -> bool {
+    seg_rel(rel, s, o0, n0, oc, nc) && d.trace() == t0 + s && !d.failed() && d.relies() == d0.relies() && d.rely_rel() == d0.rely_rel()
+    && (d0.relies() ==> d.rely_st() == run_rel(d0.rely_rel(), rs0, s))
+}
+
 } // verus!
